@@ -24,10 +24,12 @@
 (*          sizeof = 176 (class with string / vector / map members)         *)
 (*        KPeak = 128 KiB: RapidJSON's pool allocator requests 64 KiB + 24  *)
 (*          for any document, pugixml 32 KiB pages                          *)
-(*        CTotal = 256, KTotal = 256 KiB: measured maximum over the         *)
-(*          well-formed corpus and the well-formed Nest(d) documents is      *)
-(*          43 bytes per input byte (RapidJSON DOM + parse stack growth)    *)
-(*          plus the 64 KiB / 32 KiB first chunks                           *)
+(*        CTotal = 256, KTotal = 256 KiB: measured maxima over the          *)
+(*          well-formed inputs of MC_Robust (valid, Nest(d), Wide(n)) are   *)
+(*          175 bytes per input byte for the largest single request and     *)
+(*          173 for the bytes requested (vector<Cls> from Wide(100000):     *)
+(*          one 176-byte element per input byte), 43 for the JSON DOM       *)
+(*          (RapidJSON values + parse stack growth) on Nest(100000)         *)
 (*      The counters of the harness saturate at Sat = 2^30 (TLC integers).  *)
 (* A.3  stack.  Nesting depth d must not crash: the run completes or        *)
 (*      throws (a consequence of A.1; the deviation below is its guard).    *)
